@@ -30,6 +30,7 @@ type CoreInput struct {
 	Random     int         `json:"random"`     // number of additional random-driver runs (trace recording)
 	RandomLen  int         `json:"random_len"` // steps per random run
 	TraceOut   string      `json:"trace_out"`
+	LoadSync   bool        `json:"load_sync"`   // C01/C06: limited load, then the older entries arrive by Sync
 	LoadLimits bool        `json:"load_limits"` // C15: limited loads of every replica's persisted log
 	Snapshots  bool        `json:"snapshots"`   // C13: save / load snapshot of every replica
 	FinalSync  bool        `json:"final_sync"`  // after the last step, sync everyone to everything and compare pairwise
@@ -549,6 +550,9 @@ func coreCmd(args []string) int {
 		}
 		if in.LoadLimits {
 			run.loadLimits()
+		}
+		if in.LoadSync {
+			run.loadThenSync()
 		}
 		if in.Snapshots {
 			run.snapshots()
